@@ -130,6 +130,9 @@ func driveC14(args []string) error {
 		{"rgba64-invalid", color.RGBA64{0x8000, 0x0100, 0x9000, 0x1000}},
 		{"rgba64-gradient-looking", color.RGBA64{0x0200, 0x4a00, 0x8a00, 0x0000}},
 		{"ptr-rgba-invalid", &color.RGBA{0x00, 0x99, 0x00, 0x88}},
+		// 16-bit colours whose channels exceed alpha only in the low byte: the palette entry (8 bits per channel) is valid
+		{"rgba64-lowbyte-above-alpha", color.RGBA64{0x8001, 0x8000, 0x7fff, 0x8000}},
+		{"rgba64-lowbyte-above-alpha-b", color.RGBA64{0x12ff, 0x0000, 0x1234, 0x1200}},
 		{"custom-invalid", nonsense{}},
 	}
 	fullA, fullB := defaultPal(), defaultPal()
@@ -154,12 +157,32 @@ func driveC14(args []string) error {
 	mkPal := func(p *[64]color.RGBA) opt {
 		return opt{decode.WithPalette(*p), map[string]interface{}{"k": "pal", "i": 0, "c": [4]int{}, "pal": palJ(*p)}}
 	}
+	// an option written by the caller (DecodeOption is an exported function type): it stores a colour in the palette
+	// directly, or replaces the palette wholesale - whatever an option leaves behind is sanitised before Reset
+	mkOwnAt := func(i int, c color.RGBA) opt {
+		return opt{func(m *ivg.Metadata) { m.Palette[i] = c }, map[string]interface{}{"k": "at", "i": i, "c": rgbaJ(c), "pal": [][4]int{}, "model": "caller-written option"}}
+	}
+	mkOwnPal := func(p *[64]color.RGBA) opt {
+		q := *p
+		return opt{func(m *ivg.Metadata) { m.Palette = q }, map[string]interface{}{"k": "pal", "i": 0, "c": [4]int{}, "pal": palJ(q)}}
+	}
 	var atoms []func() opt
 	for _, i := range []int{0, 5, 63} {
 		i := i
-		atoms = append(atoms, func() opt { return mkAt(i, cols[rng.Intn(len(cols))]) })
+		atoms = append(atoms, func() opt {
+			if rng.Intn(5) == 0 {
+				own := []color.RGBA{{0x02, 0x4a, 0x8a, 0x00}, {0xff, 0x00, 0x00, 0x80}, {0x30, 0x66, 0x07, 0xff}, {0x01, 0x00, 0x00, 0x00}, {0x20, 0x40, 0x10, 0x80}}
+				return mkOwnAt(i, own[rng.Intn(len(own))])
+			}
+			return mkAt(i, cols[rng.Intn(len(cols))])
+		})
 	}
-	atoms = append(atoms, func() opt { return mkPal(&fullA) }, func() opt { return mkPal(&fullB) })
+	atoms = append(atoms, func() opt { return mkPal(&fullA) }, func() opt {
+		if rng.Intn(3) == 0 {
+			return mkOwnPal(&fullB)
+		}
+		return mkPal(&fullB)
+	})
 	// a full replacement that happens to equal the default palette: it still discards everything before it
 	fullBlack := defaultPal()
 	atoms = append(atoms, func() opt { return mkPal(&fullBlack) })
